@@ -14,6 +14,8 @@ M1 (code->spec)  : REAL engine with REAL startup schedules (once, const, instanc
                    reason was observed.
 M2 (spec->code)  : TLC's configuration family + reachable outcome sets executed on the real engine.
 """
+import concurrent.futures
+
 import vlib
 import pool_common as pc
 
@@ -33,7 +35,12 @@ MANIFEST = dict(
          "their schedule/ammo/context, created = tokens at a normal end unless a cut-short reason was observed. The "
          "binding records real runs: creation instants and ids at Gun.Bind, token instants at the startup schedule; "
          "TracePool.tla demands creation >= token instant exactly (never an upper bound on lateness), checks the "
-         "token instants against ProfileMath, and evaluates the end-of-run statements with the observed reasons.",
+         "token instants against ProfileMath, and evaluates the end-of-run statements with the observed reasons. "
+         "Composites nested in a profile (list in the list / type: composite, token-less items trailing, leading or "
+         "inside a group) are logged as configured; StartupMath.tla says what they denote, StartupGroups.tla enumerates "
+         "the small space of groupings (HoldHonoured; negative control: a group that ends with its last token) and the "
+         "driver runs every one of them on the real engine. A quarter of the enumerated runs have a second pool in the "
+         "same engine: ids are numbered per pool (both pools' ids must be 0..count-1).",
     note="Exhaustive bounds: <= 3 startup tokens at ticks 0..2. Creation errors and cancellation are C05's. The "
          "instant at which a cancellation reaches the starter is not observable without hooks, so the trace "
          "specification constrains the starter only through its tokens; the order of cancel sources is covered at "
@@ -41,6 +48,7 @@ MANIFEST = dict(
 )
 
 NEGS = ["earlystart", "cancelonanyend"]
+GROUP_NEG = "StartupGroups_neg_droptail"
 
 
 def run(tier, v):
@@ -49,6 +57,9 @@ def run(tier, v):
     states = trans = 0
     table = {}
     negs = pc.negatives_start(NEGS)
+    gd = vlib.scratch()
+    gex = concurrent.futures.ThreadPoolExecutor(max_workers=1)
+    gfut = gex.submit(pc.groups, gd)        # small (147 states + negative control): alongside the exhaustive run
     for cfg in cfgs:
         r, t = pc.design(cfg, workers=8 if not thorough else 12, heap="6g" if not thorough else "16g")
         states += r.distinct
@@ -58,10 +69,14 @@ def run(tier, v):
     pc.negatives_join(negs)
     b = vlib.harness_build()
     d = vlib.scratch()
+    gr, gpath = gfut.result()
+    gex.shutdown()
+    states += gr.distinct
+    trans += gr.generated
     if thorough:
         table = {k: x for k, x in table.items() if len(set(x["cfg"]["startup"])) > 1 or x["cfg"]["n"] == 3}
     rows_c, rows_t, validated, tstates, cstat, corrupted = pc.both(
-        v, PID, b, d, table, 3 if thorough else 2, "c12", 2000 if thorough else 150, enum="c12enum")
+        v, PID, b, d, table, 3 if thorough else 2, "c12", 2000 if thorough else 150, enum="c12enum", groups_path=gpath)
     runs_t = sorted({r["run"] for r in rows_t})
     ends = [r for r in rows_t if r["ev"] == "end"]
     confs = {r["run"]: r for r in rows_t if r["ev"] == "conf"}
@@ -70,7 +85,10 @@ def run(tier, v):
         "traces_validated_against_impl": validated,
         "trace_events": len(rows_c) + len(rows_t), "trace_states": tstates,
         "random_configurations": len([x for x in runs_t if x < 1000000]),
-        "enumerated_startup_configurations": len([x for x in runs_t if x >= 1000000]),
+        "enumerated_startup_configurations": len([x for x in runs_t if 1000000 <= x < 3000000]),
+        "nested_group_profiles_from_tlc": len([x for x in runs_t if x >= 3000000]),
+        "runs_with_a_second_pool": len([c for c in confs.values() if "otherpool=0" not in c["desc"]]),
+        "runs_with_nested_composites": len([c for c in confs.values() if any(i["ctor"] == "composite" for i in c["sdesc"])]),
         "runs_via_config_decoding": len([r for r in rows_t if r["ev"] == "conf" and "viaconf=true" in r["desc"]]),
         "runs_start_cut_short": len([e for e in ends if e["created"] < confs[e["run"]]["n_impl"]]),
         "runs_all_tokens_started": len([e for e in ends if e["created"] == confs[e["run"]]["n_impl"]]),
@@ -78,7 +96,7 @@ def run(tier, v):
         "runs_with_known_start_instant": len([c for c in confs.values() if c["explicit"]]),
         "samples": [pc.sample_of(rows_t, x) for x in runs_t[:2]] + [pc.sample_of(rows_c, 0)],
         "corrupted_traces_rejected": corrupted,
-        "negative_controls": NEGS, "design_configs": cfgs,
+        "negative_controls": NEGS + [GROUP_NEG], "design_configs": cfgs + ["StartupGroups_exh.cfg"],
         "exhaustive": False,
     }
     cov.update(cstat)
